@@ -430,9 +430,6 @@ func runC01(r *Run) {
 		}
 		pieces := []string{"</textarea", "</TEXTAREA", "</TextArea", "</title", "</textare", "</", "<", "/", ">", " ", "x", "&lt;", "\n", "</textarea>", "a"}
 		depth := 3
-		if r.Thorough() {
-			depth = 4
-		}
 		var rec func(p string, d int)
 		rec = func(p string, d int) {
 			if p != "" {
@@ -449,6 +446,11 @@ func runC01(r *Run) {
 			}
 		}
 		rec("", 0)
+		if r.Thorough() {
+			// one piece more over the pieces that make or nearly make an end tag
+			pieces, depth = []string{"</textarea", "</TEXTAREA", "</textare", "</", "<", "/", ">", " ", "x"}, 4
+			rec("", 0)
+		}
 		// what the serialiser writes for hostile values: never closed before its own end tag
 		for i := 0; i < 200; i++ {
 			v := Pick(r.Rng, all) + Pick(r.Rng, []string{"</textarea>", "</TEXTAREA >", "</title>", "<!--", "</textarea/", ""}) + Pick(r.Rng, all)
